@@ -400,7 +400,7 @@ fn monitors<M: RawMutex>(
     // C01: wait queue == pending futures
     snap.clear();
     mutex.verif_snapshot(&mut |it| snap.push(it));
-    let views: Vec<SlotView> = slots
+    let views: Views = slots
         .iter()
         .enumerate()
         .map(|(i, s)| SlotView { queue: 0, idx: i as u8, range: s.range(), pending: s.pending(), woken: s.woken() })
